@@ -383,6 +383,7 @@ package reflect
 //@     && (forall k int :: {p.offs[k].sz} {p.offs[k].off} 0 <= k && k < n ==> p.offs[k].off == offs[k] && p.offs[k].sz == szs[k])
 
 //@ const ghost $initp = Int
+//@ const ghost $didinit = Bool
 //@ const ghost $fid = Int
 //@ const ghost $mp = Int
 //@ func (d *tDecoder) Decode(b []byte, base unsafe.Pointer, sd *structDesc, maxdepth int) (n int, err error)
@@ -475,6 +476,9 @@ package reflect
 //@        && ld64(p+8) == old(strLen(M, b.ptr)) && (isBin(t) ==> ld64(p+16) == old(strLen(M, b.ptr)))
 //@        && (old($brk) <= ld64(p) || (d.s.b <= ld64(p) && ld64(p) + old(strLen(M, b.ptr)) <= d.s.b + d.s.p))
 //@   ensures c10_override: err == nil && t.T == tSTRING && maxdepth != 0 ==> ld64(p+8) == old(strLen(M, b.ptr))
+//@   entry ghost $didinit = false
+//@   after InitDefault ghost $didinit = true
+//@   ensures c10_inited: err == nil && t.T == tSTRUCT && maxdepth != 0 && t.Sd.hasInitFunc ==> $didinit
 //@   ensures c01_bytes: err == nil && t.T == tSTRING && maxdepth != 0 && (b.ptr + len(b) <= p || p + slotSize(t) <= b.ptr) ==> forall k Int :: {M[ld64(p) + k]} 0 <= k && k < old(strLen(M, b.ptr)) ==> M[ld64(p) + k] == old(M[b.ptr + 4 + k])
 //@   requires t.FixedSize > 0 ==> len(b) >= t.FixedSize
 //@   requires c15_budget: maxdepth >= maxDepthLimit + 3 - 2*lvl
